@@ -383,7 +383,7 @@ func c04Validate(tag string, node sql.Node, rg c04Ranges) {
 		}
 	}
 
-	res, same, err := replaceIdxSortHelper(nil, nil, node, nil)
+	res, same, err := replaceIdxSort(nil, nil, node, nil, nil, nil)
 	nd.Assert(tag+".no-error", err == nil && res != nil)
 	if err != nil || res == nil {
 		return
